@@ -9,8 +9,8 @@ import (
 	"strings"
 )
 
-// callsIn collects the source text of every call's function expression inside n.
-func callsIn(c *Ctx, n ast.Node) []string {
+// isoCallsIn collects the source text of every call's function expression inside n.
+func isoCallsIn(c *Ctx, n ast.Node) []string {
 	var out []string
 	if n == nil {
 		return out
@@ -24,7 +24,7 @@ func callsIn(c *Ctx, n ast.Node) []string {
 	return out
 }
 
-func countSuffix(xs []string, suf string) int {
+func isoCountSuffix(xs []string, suf string) int {
 	n := 0
 	for _, x := range xs {
 		if strings.HasSuffix(x, suf) {
@@ -34,8 +34,8 @@ func countSuffix(xs []string, suf string) int {
 	return n
 }
 
-// viewClosures returns the function literals passed to mwdb.View inside fd.
-func viewClosures(c *Ctx, fd *ast.FuncDecl) []*ast.FuncLit {
+// isoViewClosures returns the function literals passed to mwdb.View inside fd.
+func isoViewClosures(c *Ctx, fd *ast.FuncDecl) []*ast.FuncLit {
 	var out []*ast.FuncLit
 	if fd == nil {
 		return out
@@ -61,8 +61,8 @@ func init() {
 		// 1. read transactions are served from a snapshot taken at BeginReadTx
 		begin := c.Func(drv, "LevelDB", "BeginReadTx")
 		rollback := c.Func(drv, "transaction", "Rollback")
-		takes := begin != nil && countSuffix(callsIn(c, begin.Body), ".GetSnapshot") == 1
-		releases := rollback != nil && countSuffix(callsIn(c, rollback.Body), ".Release") >= 1
+		takes := begin != nil && isoCountSuffix(isoCallsIn(c, begin.Body), ".GetSnapshot") == 1
+		releases := rollback != nil && isoCountSuffix(isoCallsIn(c, rollback.Body), ".Release") >= 1
 		// no read of the committed state bypasses the transaction's reader: outside BeginTx/BeginReadTx/
 		// Commit/Close/newLevelDB nothing may touch `.ldb.` directly
 		direct := 0
@@ -72,7 +72,7 @@ func init() {
 				if !ok || fd.Body == nil {
 					continue
 				}
-				for _, call := range callsIn(c, fd.Body) {
+				for _, call := range isoCallsIn(c, fd.Body) {
 					if strings.HasSuffix(call, ".ldb.Get") || strings.HasSuffix(call, ".ldb.NewIterator") {
 						direct++
 					}
@@ -94,11 +94,11 @@ func init() {
 		allOne := true
 		for _, q := range qs {
 			fd := c.Func(q.file, "WalletManager", q.name)
-			cl := viewClosures(c, fd)
+			cl := isoViewClosures(c, fd)
 			same := false
 			if len(cl) == 1 {
-				calls := callsIn(c, cl[0].Body)
-				same = countSuffix(calls, "syncStore.SyncedTo") == 1 && countSuffix(calls, q.scan) == 1
+				calls := isoCallsIn(c, cl[0].Body)
+				same = isoCountSuffix(calls, "syncStore.SyncedTo") == 1 && isoCountSuffix(calls, q.scan) == 1
 			}
 			if len(cl) != 1 || !same {
 				allOne = false
@@ -106,7 +106,7 @@ func init() {
 			rows = append(rows, fmt.Sprintf("(%s, %d, %v)", leanStr(q.name), len(cl), same))
 		}
 		for _, name := range []string{"GetStakingHistory", "GetBindingHistory"} {
-			cl := viewClosures(c, c.Func("masswallet/wallet.go", "WalletManager", name))
+			cl := isoViewClosures(c, c.Func("masswallet/wallet.go", "WalletManager", name))
 			if len(cl) != 1 {
 				allOne = false
 			}
